@@ -32,9 +32,15 @@ func BuildWorld(dir string, env []string, overlay map[string][]byte) *World {
 	cg := BuildCallGraph(p)
 	ts.cg = cg
 	region := map[*ssa.Function][]*ssa.Function{}
+	isRoot := map[*ssa.Function]bool{}
 	for _, rootName := range regionRoots {
 		if root := p.FuncOpt(rootName); root != nil {
-			region[root] = foldRegion(p, cg, ts, root)
+			isRoot[root] = true
+		}
+	}
+	for _, rootName := range regionRoots {
+		if root := p.FuncOpt(rootName); root != nil {
+			region[root] = foldRegion(p, cg, ts, root, isRoot)
 		}
 	}
 	mr := BuildModRef(p, cg, ts)
@@ -273,7 +279,7 @@ var singleSite = map[*ssa.Function]ssa.Instruction{}
 // foldRegion finds the module functions that are called (statically, synchronously) from exactly one
 // call instruction in the whole module, that instruction lying in root or in an already folded
 // helper (closures of those included), and binds their parameters to the arguments of that site.
-func foldRegion(p *Program, cg *CallGraph, ts *Terms, root *ssa.Function) []*ssa.Function {
+func foldRegion(p *Program, cg *CallGraph, ts *Terms, root *ssa.Function, isRoot map[*ssa.Function]bool) []*ssa.Function {
 	sites := map[*ssa.Function][]ssa.Instruction{}
 	other := map[*ssa.Function]bool{} // referenced in some other way (go, defer, value, callback)
 	for _, f := range p.ModFuncs {
@@ -314,7 +320,7 @@ func foldRegion(p *Program, cg *CallGraph, ts *Terms, root *ssa.Function) []*ssa
 						continue
 					}
 					g := call.Call.StaticCallee()
-					if g == nil || !p.IsLib(g) || inRegion[g] || other[g] || len(sites[g]) != 1 || g.Parent() != nil || g.Synthetic != "" || len(g.Blocks) == 0 {
+					if g == nil || !p.IsLib(g) || inRegion[g] || isRoot[g] || other[g] || len(sites[g]) != 1 || g.Parent() != nil || g.Synthetic != "" || len(g.Blocks) == 0 {
 						continue
 					}
 					if obj, ok := g.Object().(*types.Func); !ok || obj.Exported() {
